@@ -356,87 +356,7 @@ pub fn check_c07(plan: &Plan, out: &Outcome, r: &mut Report) {
     use crate::evlog::CMsg;
     use crypto::Hash as _;
     let settle = 60_000u64.min(plan.duration_ms / 3).max(20 * plan.timeout_ms);
-    // (a) replies to sync requests carry the requested block, unchanged (always-on).
-    let mut first_seen: HashMap<crypto::Digest, Vec<u8>> = HashMap::new();
-    let mut requests: HashMap<(usize, usize), Vec<crypto::Digest>> = HashMap::new();
-    let mut store_order: HashMap<usize, HashMap<Vec<u8>, usize>> = HashMap::new();
-    for (pos, ev) in out.log.iter().enumerate() {
-        match &ev.kind {
-            Kind::FrameIn { frame } => {
-                if let Some(CMsg::Sync(d, _)) = frame.cons() {
-                    requests.entry((frame.route.src, frame.route.dst)).or_default().push(d.clone());
-                    r.count("C07.sync_requests_delivered", 1);
-                }
-            }
-            Kind::FrameOut { frame, .. } => {
-                if let Some(CMsg::Propose(b)) = frame.cons() {
-                    let d = b.digest();
-                    let bytes = bincode::serialize(b).unwrap_or_default();
-                    let sender = frame.sender();
-                    let is_author = out.topo.index_of(&b.author) == Some(sender);
-                    match first_seen.get(&d) {
-                        None => {
-                            first_seen.insert(d.clone(), bytes);
-                        }
-                        Some(orig) => {
-                            if !is_author && out.honest.contains(&sender) {
-                                r.count("C07.sync_replies_checked", 1);
-                                if *orig != bytes {
-                                    r.violate(
-                                        "C07",
-                                        "sync-reply-differs-from-original",
-                                        format!("node {} answered with a block whose bytes differ from the original proposal {}", sender, crate::model::short(&d)),
-                                        vec![monitors::describe(ev)],
-                                    );
-                                }
-                                let asked = requests.get(&(frame.receiver(), sender)).map_or(false, |v| v.contains(&d));
-                                if !asked {
-                                    r.violate(
-                                        "C07",
-                                        "sync-reply-not-requested",
-                                        format!("node {} sent block {} to node {} which never asked it for that digest", sender, crate::model::short(&d), frame.receiver()),
-                                        vec![monitors::describe(ev)],
-                                    );
-                                }
-                            }
-                        }
-                    }
-                }
-            }
-            Kind::StoreWrite { store, key, .. } => {
-                if let Some(i) = out.store_of.get(store) {
-                    store_order.entry(*i).or_default().entry(key.clone()).or_insert(pos);
-                }
-            }
-            _ => {}
-        }
-    }
-    // (b) oldest first: a block is stored only after its parent (always-on).
-    let ctx = Ctx { topo: &out.topo, honest: out.honest.clone(), store_of: out.store_of.clone(), log: &out.log };
-    let ix = monitors::build_index(&ctx);
-    for (i, order) in &store_order {
-        for (key, pos) in order {
-            if key.len() != 32 {
-                continue;
-            }
-            let d = crypto::Digest(key.as_slice().try_into().unwrap());
-            if let Some(b) = ix.blocks.get(&d) {
-                if b.qc.hash == crypto::Digest::default() {
-                    continue;
-                }
-                r.count("C07.store_order_checked", 1);
-                match order.get(&b.qc.hash.to_vec()) {
-                    Some(pp) if pp < pos => {}
-                    _ => r.violate(
-                        "C07",
-                        "block-stored-before-parent",
-                        format!("node {} stored block r{} before its parent", i, b.round),
-                        vec![monitors::describe(&out.log[*pos])],
-                    ),
-                }
-            }
-        }
-    }
+    // (a) sync replies and (b) parent-first store order are always-on monitors (monitors::check_c07_always).
     // (c) convergence after the last heal.
     let mut victims: Vec<(usize, u64, u64)> = plan.isolations.iter().map(|(a, b, n)| (*n, *a, *b)).collect();
     for (a, b, side) in &plan.splits {
